@@ -659,6 +659,10 @@ impl Check for C13 {
         "C13"
     }
     fn generate(&self, seed: u64, _tier: Tier) -> Value {
+        // a quarter of the runs: cluster scenario (expiry everywhere, take-over after a node failure)
+        if Rng::derive(seed, "C13.kind", 0).chance(0.25) {
+            return crate::checks_nc::gen_c13_cluster(seed);
+        }
         let mut rng = Rng::derive(seed, "C13.gen", 0);
         let cfg = naming_cfg(&mut rng, true);
         let n = rng.range(8, 60);
@@ -666,6 +670,9 @@ impl Check for C13 {
         json!({"check": "C13", "seed": seed, "cfg": cfg, "steps": steps})
     }
     fn execute(&self, script: Value) -> LocalFut<ExecResult> {
+        if script["cluster"].as_bool().unwrap_or(false) {
+            return Box::pin(crate::checks_nc::exec_c13_cluster(script));
+        }
         Box::pin(exec_naming("C13", script))
     }
 }
